@@ -1030,3 +1030,110 @@ func ruleThrowThenContinue(c *Ctx, rule string, vf *vmFacts) {
 		c.Und(rule, "handled-throw branches in the dispatch loop", "-", fmt.Sprintf("only %d found", n))
 	}
 }
+
+// ---- C16/lookahead-restore -------------------------------------------------------------------------------------------------------------------------
+// The scanner looks ahead (to decide whether a comment ends the line) and then
+// rewinds itself in a deferred closure.  What has to be rewound is the state the
+// stepping function depends on: the fields of Scanner that `next` reads before
+// it writes them, and writes at all (the read offset and the current character:
+// the character decides whether a line start is recorded).  A closure that
+// restores the offsets (it stores readOffset) restores every one of them: with
+// the current character left as the look-ahead found it - a newline inside a
+// block comment - the re-read records a line start that does not exist, and
+// every later position is reported one line too low in the file.
+func ruleLookaheadRestore(c *Ctx, rule string) {
+	l := c.L
+	next := l.Method(parserPath, "Scanner", "next")
+	st, _ := l.structField(parserPath, "Scanner", "readOffset")
+	_, fRO := l.structField(parserPath, "Scanner", "readOffset")
+	if !c.Anchor(rule, "parser.Scanner.next / Scanner.readOffset", next != nil && st != nil && fRO >= 0) {
+		return
+	}
+	scannerField := func(addr ssa.Value) (int, bool) {
+		fa, ok := addr.(*ssa.FieldAddr)
+		if !ok {
+			return 0, false
+		}
+		pt, ok := fa.X.Type().Underlying().(*types.Pointer)
+		if !ok || !isNamed(pt.Elem(), parserPath, "Scanner") {
+			return 0, false
+		}
+		return fa.Field, true
+	}
+	// input state of next: read before written, and written
+	written := map[int]bool{}
+	var stores []*ssa.Store
+	eachInstr(next, func(ins ssa.Instruction) {
+		if s, ok := ins.(*ssa.Store); ok {
+			if f, ok := scannerField(s.Addr); ok {
+				written[f] = true
+				stores = append(stores, s)
+			}
+		}
+	})
+	input := map[int]bool{}
+	eachInstr(next, func(ins ssa.Instruction) {
+		ld, ok := ins.(*ssa.UnOp)
+		if !ok || ld.Op != gotoken.MUL {
+			return
+		}
+		f, ok := scannerField(ld.X)
+		if !ok || !written[f] {
+			return
+		}
+		covered := false
+		for _, s := range stores {
+			if sf, _ := scannerField(s.Addr); sf == f && instrDominates(s, ld) {
+				covered = true
+			}
+		}
+		if !covered {
+			input[f] = true
+		}
+	})
+	if !c.Anchor(rule, "state that Scanner.next reads before writing (found none)", len(input) > 0) {
+		return
+	}
+	n := 0
+	for _, fn := range l.RepoFuncs(func(p string) bool { return p == parserPath }) {
+		if fn.Parent() == nil {
+			continue
+		}
+		// a closure run by a defer of its parent
+		deferred := false
+		eachInstr(fn.Parent(), func(ins ssa.Instruction) {
+			if d, ok := ins.(*ssa.Defer); ok {
+				if mc, ok := d.Call.Value.(*ssa.MakeClosure); ok && mc.Fn == ssa.Value(fn) {
+					deferred = true
+				}
+			}
+		})
+		if !deferred {
+			continue
+		}
+		storedHere := map[int]bool{}
+		eachInstr(fn, func(ins ssa.Instruction) {
+			if s, ok := ins.(*ssa.Store); ok {
+				if f, ok := scannerField(s.Addr); ok {
+					storedHere[f] = true
+				}
+			}
+		})
+		if !storedHere[fRO] {
+			continue // not a rewind
+		}
+		n++
+		var missing []string
+		for f := range input {
+			if !storedHere[f] {
+				missing = append(missing, st.Field(f).Name())
+			}
+		}
+		sort.Strings(missing)
+		c.Check(rule, fnName(fn)+" | scanner rewound after a look-ahead", l.Pos(fn.Pos()), len(missing) == 0, "restores every field the stepping function reads before writing",
+			"the rewind restores the offsets but not "+strings.Join(missing, ", ")+", which Scanner.next reads before writing: re-reading after the look-ahead starts from a stale value (a newline seen inside a block comment records a line start that does not exist, and every later error position names the wrong line)")
+	}
+	if n == 0 {
+		c.Und(rule, "deferred rewinds of the scanner", "-", "none found")
+	}
+}
